@@ -221,6 +221,11 @@ class StdioClient:
                             parse_message,
                         )
 
+                        # A batch member is a message object; anything else (a
+                        # nested array, a scalar) is dropped alone
+                        if not isinstance(item, dict):
+                            raise ValueError("batch member is not an object")
+
                         msg = parse_message(item)  # type: ignore[arg-type]
                         await self._route_message(msg)  # type: ignore[arg-type]
                         msg_method = getattr(msg, "method", None)
